@@ -3827,6 +3827,28 @@ func runFILTERALL(c *Ctx, r *Result, rule string) int {
 		}
 	}
 	n := 0
+	// the predicate is evaluated with the item as its context: every eval of the filter node gets
+	// an element read out of the item list (a predicate judged "context-free" and evaluated once
+	// without a context is wrong for built-ins that default their first argument to the context)
+	if ev := c.W.Fn("jsonata.eval"); ev != nil && len(f.Params) > 0 {
+		ord := 0
+		for _, ci := range callsIn(f) {
+			if ci.Common().StaticCallee() != ev || len(ci.Common().Args) < 2 || ci.Common().Args[0] != ssa.Value(f.Params[0]) {
+				continue
+			}
+			ord++
+			n++
+			o := Obligation{Rule: rule, Key: fmt.Sprintf("applyFilter:filter-context#%d", ord), Fn: shortFn(f), Pos: c.W.Pos(ci.Pos()), Nontrivial: true}
+			d := ci.Common().Args[1]
+			item, isCall := d.(*ssa.Call)
+			if isCall && staticName(item) == "reflect.Value.Index" && len(item.Call.Args) == 2 && isItems[item.Call.Args[0]] {
+				o.Verdict, o.Reason = Discharged, "the filter is evaluated with an element of the item list as its context"
+			} else {
+				o.Verdict, o.Reason = Finding, "the filter is evaluated against " + describeVal(d) + ", not against an item of the list: the predicate is not evaluated once per item with that item as context"
+			}
+			r.Add(o)
+		}
+	}
 	for _, l := range findLoops(f) {
 		reads := false
 		for b := range l.body {
@@ -4707,6 +4729,61 @@ func runSORTGATE(c *Ctx, r *Result, rule string) int {
 				o.Verdict, o.Reason = Discharged, "called on the true edge of jtypes.IsArrayOf on the same array: every member has the type the collector keeps"
 			} else {
 				o.Verdict, o.Reason = Finding, g.Name() + " leaves out members of another type without an error, and this call is not behind jtypes.IsArrayOf on the same array: an array with one member of another type is sorted with that member silently dropped"
+			}
+			r.Add(o)
+		}
+	}
+	return n
+}
+
+// ---------------------------------------------------------------------------------------
+// LEDLOOP (C04): only parseExpression decides, by binding power, whether the next operator
+// belongs to the expression being built.
+//
+// A nud/led function may loop over a delimited list (arguments, array items, object pairs, sort
+// terms), parsing each item with parseExpression(0). A loop in such a function that parses
+// operands with the binding power of an operator is a second operator loop: it takes the next
+// operator without asking the right binding power of its caller, so `a - b * c + d` groups as
+// a - ((b * c) + d). Rule: outside parseExpression, every call of parseExpression that lies in
+// a loop has the constant 0 as its argument.
+// ---------------------------------------------------------------------------------------
+
+func runLEDLOOP(c *Ctx, r *Result, rule string) int {
+	pe := c.mustFn(r, "jparse.(*parser).parseExpression")
+	lib := c.W.Lib["jparse"]
+	if pe == nil || lib == nil {
+		return 0
+	}
+	n := 0
+	for _, f := range c.W.FuncsOf(PkgSet{lib.Types: true}) {
+		if f == pe || !c.RCompile.Set[f] {
+			continue
+		}
+		loops := findLoops(f)
+		if len(loops) == 0 {
+			continue
+		}
+		ord := 0
+		for _, ci := range callsIn(f) {
+			if ci.Common().StaticCallee() != pe || len(ci.Common().Args) < 2 {
+				continue
+			}
+			in := false
+			for _, l := range loops {
+				if l.body[ci.Block()] {
+					in = true
+				}
+			}
+			if !in {
+				continue
+			}
+			ord++
+			n++
+			o := Obligation{Rule: rule, Key: fmt.Sprintf("%s:parseExpression-in-loop#%d", shortFn(f), ord), Fn: shortFn(f), Pos: c.W.Pos(ci.Pos()), Nontrivial: true}
+			if k, ok := intConstOf(ci.Common().Args[1]); ok && k == 0 {
+				o.Verdict, o.Reason = Discharged, "an item of a delimited list is parsed with parseExpression(0)"
+			} else {
+				o.Verdict, o.Reason = Finding, "a loop outside parseExpression parses operands with a binding power that is not 0 (" + describeVal(ci.Common().Args[1]) + "): a second operator loop, which takes following operators without regard to the right binding power of the expression it is part of"
 			}
 			r.Add(o)
 		}
